@@ -294,6 +294,8 @@ type scenario struct {
 	jitter     bool
 	emptyCalls bool
 	jitterUs   int
+	wire       int // > 0: run over the real kafka.Transport against this many byte-level brokers
+	moves      []leaderMove
 	sinkDelay  map[string]time.Duration // event key ("PW.NewBatch", "PW.Detach:timer", "Q.Get:batch", "B.TimerFire") -> stall inside that critical section
 }
 
@@ -623,6 +625,68 @@ func isTemporary(c int16) bool {
 	return false
 }
 
+// wire: the Writer over its real Transport against byte-level brokers; partition leaders move while batches are in
+// flight (the old leader answers NOT_LEADER_FOR_PARTITION until the Transport's metadata refresh routes the retries to
+// the new one), plus the usual fault script on the leaders.
+func (b *builder) wireScenario(i int) *scenario {
+	r := b.r
+	sc := &scenario{name: "wire" + strconv.Itoa(i), bs: 1 + r.Intn(3), bb: 1 << 20, ma: 6, async: i%3 == 2, compl: true, wtopic: "t",
+		timeout: time.Duration(1+r.Intn(3)) * time.Millisecond, nparts: map[string]int{"t": 1 + r.Intn(3)}, faults: map[tpKey][]fault{}, closeAt: -1,
+		wire: 2 + r.Intn(2), jitter: true, jitterUs: 800}
+	if i%4 == 3 {
+		sc.wtopic = ""
+		sc.nparts = map[string]int{"a": 1 + r.Intn(2), "b": 1 + r.Intn(2)}
+	}
+	var topics []string
+	for t := range sc.nparts {
+		topics = append(topics, t)
+	}
+	sort.Strings(topics)
+	for c := 0; c < 2+r.Intn(2); c++ {
+		var calls []callSpec
+		for j := 0; j < 3+r.Intn(3); j++ {
+			b.nextC++
+			cs := callSpec{id: b.nextC}
+			for k := 0; k < 1+r.Intn(3); k++ {
+				tname := topics[r.Intn(len(topics))]
+				topic := ""
+				if sc.wtopic == "" {
+					topic = tname
+				}
+				cs.msgs = append(cs.msgs, b.mkMsg(40+r.Intn(20), topic, r.Intn(sc.nparts[tname]), r.Intn(6) == 0))
+			}
+			calls = append(calls, cs)
+		}
+		sc.callers = append(sc.callers, calls)
+	}
+	// leader moves after a few produce requests, on random partitions
+	nm := 1 + r.Intn(3)
+	for k := 0; k < nm; k++ {
+		tname := topics[r.Intn(len(topics))]
+		sc.moves = append(sc.moves, leaderMove{after: 1 + r.Intn(8), topic: tname, part: r.Intn(sc.nparts[tname])})
+	}
+	// a few faults on the leaders (acknowledgement lost = connection dies after the append; temporary / permanent codes)
+	for _, t := range topics {
+		for p := 0; p < sc.nparts[t]; p++ {
+			var q []fault
+			for k := 0; k < r.Intn(4); k++ {
+				switch x := r.Intn(10); {
+				case x < 6:
+					q = append(q, fault{kind: "ok"})
+				case x < 8:
+					q = append(q, fault{kind: "kerr", code: temporaryCodes[r.Intn(len(temporaryCodes))]})
+				case x < 9:
+					q = append(q, fault{kind: "kerr", code: permanentCodes[r.Intn(len(permanentCodes))], msg: true})
+				default:
+					q = append(q, fault{kind: "lostack"})
+				}
+			}
+			sc.faults[tpKey{t, p}] = q
+		}
+	}
+	return sc
+}
+
 // ---------------------------------------------------------------- running one scenario
 
 type result struct {
@@ -664,6 +728,20 @@ func run(sc *scenario, out *bufio.Writer) {
 	}
 	w.Compression = kafka.Compression(opt % 5)
 	f.wantAcks, f.wantAttrs = int16(w.RequiredAcks), int16(w.Compression)
+	var wc *wireCluster
+	if sc.wire > 0 {
+		wc = newWireCluster(f, sc.wire, sc.nparts, append([]leaderMove(nil), sc.moves...))
+		tr := &kafka.Transport{Dial: wc.Dial, MetadataTTL: 2 * time.Millisecond, IdleTimeout: time.Second, DialTimeout: time.Second}
+		w.Transport, w.Addr = tr, wc.bootAddr()
+		w.WriteBackoffMin, w.WriteBackoffMax = 2*time.Millisecond, 6*time.Millisecond
+		defer func() {
+			tr.CloseIdleConnections()
+			wc.close()
+			wireObs.scenarios++
+			wireObs.misrouted += wc.misrouted
+			wireObs.produce += wc.nprod
+		}()
+	}
 	if sc.compl {
 		w.Completion = func(msgs []kafka.Message, err error) {
 			cbmu.Lock()
@@ -959,6 +1037,9 @@ var timerObs = &timerStats{minSlack: time.Hour}
 // driver stops generating new scenarios after a few of them
 var failedScenarios int
 
+// observation: produce requests over the real Transport, and how many reached a broker that had lost the leadership
+var wireObs struct{ scenarios, produce, misrouted int }
+
 func (t *timerStats) add(elapsed, timeout time.Duration) {
 	t.mu.Lock()
 	defer t.mu.Unlock()
@@ -1036,6 +1117,11 @@ func renderEvents(evs []kafka.VerifEvent) string {
 	npw, nq, nb := 0, 0, 0
 	var parts []string
 	for _, e := range evs {
+		// only the Writer's own alphabet (a real Transport underneath records its T.* events in the same log)
+		if !(strings.HasPrefix(e.Kind, "W.") || strings.HasPrefix(e.Kind, "PW.") || strings.HasPrefix(e.Kind, "Q.") ||
+			strings.HasPrefix(e.Kind, "B.") || strings.HasPrefix(e.Kind, "Br.")) {
+			continue
+		}
 		a := append([]string(nil), e.Args...)
 		switch e.Kind {
 		case "W.Enter", "W.Empty", "W.CloseBegin", "W.CloseMarked", "W.CloseReturn":
@@ -1100,12 +1186,16 @@ func main() {
 	for i := 0; i < 10*extra && failedScenarios < 3; i++ {
 		run(b.qstall(i), out)
 	}
+	for i := 0; i < 12*extra && failedScenarios < 3; i++ {
+		run(b.wireScenario(i), out)
+	}
 	for i := 0; i < n && failedScenarios < 3; i++ {
 		run(b.random(i, thorough), out)
 	}
 	if failedScenarios >= 3 {
 		fmt.Fprintf(os.Stderr, "writer driver: %d scenarios hung (callers / unsent messages / Close); not generating further scenarios\n", failedScenarios)
 	}
+	fmt.Fprintf(out, "obs wire scenarios=%d produce_requests=%d answered_not_leader=%d\n", wireObs.scenarios, wireObs.produce, wireObs.misrouted)
 	fmt.Fprintf(out, "obs timer fires=%d earlier_than_timeout_minus_1ms=%d min(elapsed-timeout)=%s max(elapsed-timeout)=%s\n",
 		timerObs.n, timerObs.early, timerObs.minSlack, timerObs.maxLate)
 }
